@@ -1,5 +1,11 @@
 """Unit `keys` (C02): the default cache key is the Debug rendering (keys.rs blanket impl), and '|'-joined keys of
 '|'-safe, injective renderings are injective on argument tuples (lemmas; the std facts about Debug are axioms)."""
+import glob
+import os
+import re
+
+from extract import rustsrc
+from extract.gen import REPO
 from extract.rules import R
 
 KEYS = 'cachelito-core/src/keys.rs'
@@ -89,12 +95,30 @@ pub proof fn lemma_key3_injective<A, B, C>(a1: A, b1: B, c1: C, a2: A, b2: B, c2
 /// counterpart for the empty separator, so a key builder that drops '|' cannot meet the wrapper contracts.
 ''')
 
+FORMAT_RULE = R('R9.format_debug', r'format ! \( "\{:\?\}" , self \)', 'debug_fmt(self)', 'format!("{:?}", self) -> debug_fmt(self) (Debug rendering, assumed contract on std)')
+BLANKET = r'^impl<T> CacheableKey for T where T: DefaultCacheableKey \+ \?Sized,?$'
+
+
+def other_impls():
+    """Every further `impl .. CacheableKey for ..` block of cachelito-core (there is none on the pinned tree: all built-in key types
+    go through the blanket impl). Each one is put under the trait contract; because a different but still injective rendering
+    would not be a defect, a failure there is arbitrated by the bounded search (arbitrate=True), never reported on its own."""
+    items = []
+    for path in sorted(glob.glob(os.path.join(REPO, 'cachelito-core', 'src', '*.rs'))):
+        text = rustsrc.strip_comments(open(path).read())
+        for m in re.finditer(r'(?m)^impl\b[^{;]*\{', text):
+            header = re.sub(r'\s+', ' ', m.group(0)[:-1]).strip()
+            if not re.search(r'\bCacheableKey for\b', header) or re.search(r'\bDefaultCacheableKey for\b', header) or re.search(BLANKET, header):
+                continue
+            items.append(dict(kind='fn', file=os.path.relpath(path, REPO), impl='^' + re.escape(header) + '$', name='to_cache_key',
+                              label='CacheableKey::to_cache_key[%s]' % header, keep_private=True, props=['C02'], arbitrate=True, rules=[FORMAT_RULE]))
+    return items
+
+
 UNIT = dict(
     name='keys',
     lemma_props={'lemma_key1_injective': ['C02'], 'lemma_key2_injective': ['C02'], 'lemma_key3_injective': ['C02'], 'lemma_cancel': ['C02'], '*': ['C02']},
     items=[SPEC,
-           dict(kind='fn', file=KEYS, impl=r'^impl<T> CacheableKey for T where T: DefaultCacheableKey \+ \?Sized,?$', name='to_cache_key', label='CacheableKey::to_cache_key',
-                keep_private=True, props=['C02'],
-                rules=[R('R9.format_debug', r'format ! \( "\{:\?\}" , self \)', 'debug_fmt(self)', 'format!("{:?}", self) -> debug_fmt(self) (Debug rendering, assumed contract on std)')]),
-           ],
+           dict(kind='fn', file=KEYS, impl=BLANKET, name='to_cache_key', label='CacheableKey::to_cache_key', keep_private=True, props=['C02'], rules=[FORMAT_RULE]),
+           ] + other_impls(),
 )
